@@ -285,17 +285,6 @@ def translate_op_count(repo):
     return count, (lambda c, base, full: base if c <= base else full)
 
 
-def names_high_vector_register(line):
-    """an `I` command with a register operand of type xmm/ymm/zmm (11..13) and id 16..31"""
-    t, sigs = _sigs(line)
-    if sigs is None:
-        return False
-    for i, sg in enumerate(sigs):
-        if (sg & 7) == 1 and 11 <= ((sg >> 3) & 31) <= 13 and 16 <= int(t[4 + 4 * i]) <= 31:
-            return True
-    return False
-
-
 def decoder_tie(ck, impl, model, progs):
     """X86Dec.dec_x86 (extracted) against the real accessors (Operand_::op_type, Reg::reg_type/id, x86::Mem::size/base_type/base_id/index_type/
     index_id/offset/segment_id/get_broadcast/is_reg_home, Imm::value) on every operand of the x86 programs of this run and on systematic
@@ -517,7 +506,6 @@ def run(ck):
     ans = parse_answers(out)
     mans = {}
     mans_legacy = {}
-    n_lag = 0
     if model and not crashed:
         # strict-validation programs: the validator is opaque to the model, its verdict (the Builder's answer to each `I`) is an input:
         # a refused `I` becomes `IR <error>` in the model's copy of the program
@@ -543,31 +531,6 @@ def run(ck):
             ck.violation("C08/model-driver-crash", "the extracted model driver died: %s" % (mout[2],), {"detail": str(mout[2])}, no_input=True)
         else:
             mans = parse_answers(mout)
-        # GUARD (model lag, not a property of the code): /repo bcef3b8 made validate() refuse vector registers 16..31 for instructions without an
-        # EVEX form (kInvalidPhysId); C13's ValidateModel.v on this branch does not have that rule yet.  Where the real Builder answers
-        # kInvalidPhysId for a command that names such a register and the model's verdict differs, the command is fed to the model as a refused
-        # one (`IR 29`) and counted in unsupported.verdicts_skipped_validator_model_lag - it is 0 as soon as the validator model has the rule.
-        if mans:
-            redo = []
-            for k_, ((text, meta), mt) in enumerate(zip(progs, mtexts)):
-                m_, a_ = mans.get(meta["pidx"]), ans.get(meta["pidx"])
-                if not (m_ and a_ and m_.get("VERDICT") and "EB" in a_):
-                    continue
-                head, body = mt.split("\n", 1)
-                blines = body.split("\n")
-                changed = False
-                for st_, e_ in m_["VERDICT"].items():
-                    eb = a_["EB"][0]
-                    if st_ < len(eb) and eb[st_] == 29 and e_ != 29 and st_ < len(meta["lines"]) and names_high_vector_register(meta["lines"][st_]) and blines[st_] == meta["lines"][st_]:
-                        blines[st_] = "IR 29"
-                        changed = True
-                        n_lag += 1
-                if changed:
-                    redo.append((meta["pidx"], head + "\n" + "\n".join(blines)))
-            if redo:
-                rout = run_sharded(model, [t for _p, t in redo])
-                if not isinstance(rout, tuple):
-                    mans.update(parse_answers(rout))
         # the model keeps an operand that follows an empty slot (C08_all_operands_kept).  A tree whose op_count_from_emit_args still drops it is
         # reported once per program (C08/operand-after-hole-dropped) at that command; the rest of such a program is then compared against the
         # model fed the command the tree effectively recorded, so that nothing after the first hole escapes the differential
@@ -740,7 +703,7 @@ def run(ck):
                  "section switches; 40% with node-list edits, 20% malformed) generated from VERIF_SEED for x86-64/x86-32/AArch64; a program is non-trivial when it "
                  "has more than 4 commands; distinct = distinct final node-list dumps",
          "samples": samples, "programs_by_kind": kinds, "input_distribution": stats, "programs_without_any_error": n_err_free, "cross_section_label_references_generated": allow_xsec,
-         "node_list_steps_compared_with_model": steps_compared, "reference_sequences_equal_to_model_serialization": ref_checked, "programs_under_strict_validation": len([1 for _t, m in progs if m.get("validate")]), "commands_with_operand_after_hole_compared_as_recorded": n_hole_steps, "function_programs_by_arch": func_by_arch, "op_count_patterns_equal_to_translated_source": opcount_rows, "validation_verdicts_computed_by_model_and_compared": n_verdicts, "x86_operands_decoded_by_model_equal_to_real_accessors": n_decoded, "of_which_refusals": n_refused, "distinct_verdict_codes": sorted(verdict_codes), "unsupported": {"programs_judged_by_oracle_only": oracle_only, "verdicts_skipped_validator_model_lag": n_lag}, "model_vs_impl_disagreements": disagreements,
+         "node_list_steps_compared_with_model": steps_compared, "reference_sequences_equal_to_model_serialization": ref_checked, "programs_under_strict_validation": len([1 for _t, m in progs if m.get("validate")]), "commands_with_operand_after_hole_compared_as_recorded": n_hole_steps, "function_programs_by_arch": func_by_arch, "op_count_patterns_equal_to_translated_source": opcount_rows, "validation_verdicts_computed_by_model_and_compared": n_verdicts, "x86_operands_decoded_by_model_equal_to_real_accessors": n_decoded, "of_which_refusals": n_refused, "distinct_verdict_codes": sorted(verdict_codes), "unsupported": {"programs_judged_by_oracle_only": oracle_only}, "model_vs_impl_disagreements": disagreements,
          "traces_validated_against_impl": n_judged if model else 0,
          "proved_vs_compared": {
              "proved_for_all_inputs_in_coq": "the theorems of Properties_C08.v (obligations below) - statements about BuilderModel.v, C03's label machine, C04's relocate_entry and C13's validate; "
